@@ -15,6 +15,29 @@ CLAIMED = {
   note="Trusted: Lean kernel; the Nat transliteration of math.rs (validated by the exhaustive table comparison, not generated); harness and driver. "
        "Leaf counts are assumed powers of two as produced by NodeVec::total_leaf_count (rows 'tlc' check that function too).",
   ref="DESIGN.md §4 C20"),
+ "C13": dict(
+  technique="Lean 4 proof (code-structured key schedule / lazy secret tree / PSK fold = RFC 9420 §8-9 spec, any KDF) + byte-level correspondence with a Lean HKDF/HMAC/SHA-2 reference",
+  text="Theorems MlsVerif.Props.C13: for every primitive set and all inputs the model of key_schedule.rs / secret_tree.rs / psk/secret.rs "
+       "equals the RFC-structured specification: every epoch secret, welcome key/nonce, exporter, the PSK fold = the RFC recursion for any list length, "
+       "every key of the lazily consumed secret tree after ANY request sequence = the spec key of (leaf, type, generation), ratchet keys independent of "
+       "request order. Tie: on every run the real crate (hook verif::kdf; RustCrypto and OpenSSL, suites 1-7) and the model instantiated with a Lean "
+       "reference HKDF/HMAC/SHA-2 are run on fresh random inputs and compared byte for byte (~58k derivations quick).",
+  note="Trusted: Lean kernel; Lean SHA-2/HMAC/HKDF reference (checked against published vectors and python hashlib, not proved); hand-written model validated by the "
+       "byte-level correspondence. Straight-line parts of the schedule are near-rfl; content is in the secret tree, ratchet, PSK chain. Transcript hashes / membership "
+       "tags are modelled (KS.confirmedTranscriptHash etc.) but their correspondence needs real messages and is exercised by the group-level checks. "
+       "Finding kept in Props: a non-leaf index given to SecretTree returns a key the RFC does not define (nonleaf_request_succeeds) — unreachable through Group.",
+  ref="DESIGN.md §4 C13"),
+ "C05": dict(
+  technique="Lean 4 proof (single-use, exact window, permutation completeness, injectivity under free KDF) + ratchet correspondence + nonce/replay oracle on real groups",
+  text="Theorems MlsVerif.Props.C05 over the ratchet/secret-tree model: a generation handed out once is never handed out again (handed_out_once, any request list), "
+       "the acceptance window is exactly [gen, gen+1024] plus stored skipped keys (window_exact), every permutation of an in-window set yields each key exactly once "
+       "(permutation_complete), sender generations increase by one (sender_fresh*), and under a collision-free KDF distinct (leaf, type, generation) give distinct "
+       "(key, nonce) so application and handshake never share keys (key_injective, proved non-vacuous for a term algebra). Tie: request scripts of the real secret tree vs the "
+       "compiled model; direct oracle on real groups: the RecordingProvider log of every aead_seal has no repeated (key, nonce), every ciphertext is accepted exactly once "
+       "under permuted/duplicated delivery with reloads, and the 1024 boundary is exact.",
+  note="Trusted: Lean kernel, model validated by correspondence, harness oracles. Excluded and stated: u32 generation overflow within 2048 of 2^32 (counterexample "
+       "permutation_near_overflow in the Props file), state roll-back to an older snapshot, real AEAD/KDF collision resistance (FreePrim hypothesis).",
+  ref="DESIGN.md §4 C05"),
 }
 PENDING_REASON = "check not built yet in this session (planned, see DESIGN.md §8); not claimed until its check exists"
 
